@@ -281,11 +281,19 @@ func script(seed int64, idx int) {
 			if e.block == nil {
 				continue
 			}
-			n := 0
+			n, total := 0, 0
 			for _, a := range arr {
-				if !a.Reobs && a.Msg.TxHash == e.tx.Hash && a.Msg.Sequence == e.log.Seq && int64(e.block.Time) == a.Msg.Timestamp.Unix() {
-					n++
+				if a.Msg.TxHash == e.tx.Hash && a.Msg.Sequence == e.log.Seq && int64(e.block.Time) == a.Msg.Timestamp.Unix() {
+					total++
+					if !a.Reobs {
+						n++
+					}
 				}
+			}
+			// a head-scan delivery that happened to fall into a re-observation window carries the wrong tag:
+			// arrivals beyond the number of re-observation requests for this tx can only come from the head scan
+			if extra := total - h.ReobsCount(e.tx.Hash); extra > n {
+				n = extra
 			}
 			vlib.CCount("final_messages_expected", 1)
 			w := map[string]interface{}{"script": desc, "trace": trace, "tx": fmt.Sprintf("%x", e.tx.Hash[:4]), "block": e.block.Number, "history": e.note}
